@@ -233,7 +233,17 @@ func (f *Frame) newRef(st *State, tag string) string {
 
 // allocObl: C07 allocation-size obligations are emitted only when the
 // contract asks for them (alloc bound clause); the default records nothing.
-func (f *Frame) allocObl(reach, size string, el types.Type) {}
+func (f *Frame) allocObl(reach, size string, el types.Type) {
+	top := f
+	for top.parent != nil {
+		top = top.parent
+	}
+	if top.fc == nil || top.fc.AllocBound == nil {
+		return
+	}
+	bound := top.evalTerm(top.env(top.entrySt), top.fc.AllocBound)
+	f.addObl("alloc", "C07.alloc", reach, f.e.ile(size, bound), nil, nil, "")
+}
 
 func (f *Frame) execUnOp(x *ssa.UnOp, reach string, st *State) {
 	e := f.e
